@@ -87,7 +87,7 @@ func checkC05(c c05Case) verdict {
 	if c.Spare > 0 {
 		labels = append(labels, "spare-capacity")
 	}
-	disturb(c.Before)
+	disturb(c.Before, secret)
 	got, err := otp.GenerateOCRA(secret, suite, spareIn(c.In, c.Spare))
 	if err != nil || got != want {
 		return bad(nt, labels, "GenerateOCRA(suite %q via %s, cfg %+v, in %x) = %q, %v; RFC 6287 value is %q", cfg.Raw, c.Suite.Via, cfg, c.In, got, err, want)
